@@ -24,7 +24,7 @@ Judge_parse(c) ==
 Judge_canon(c) ==
   LET P == Parse(c.schema) IN
   IF ~P.ok THEN << Cl("H.schema", "fail") >>
-  ELSE IF "perr" \in DOMAIN c THEN << Cl("C11.accept", "fail") >>
+  ELSE IF "perr" \in DOMAIN c THEN << Cl("C11.accept", "fail"), Cl("C13.text", "fail") >>
   ELSE LET want == CanonText(CanonTree(P.t))
            P2 == Parse(c.tree2)
            o == [strict |-> FALSE, tuples |-> TRUE]
